@@ -26,7 +26,6 @@ template <>
 void expect_raises_fn<std::exception>(const char* file, uint64_t line, std::function<void()> fn) {
   try {
     fn();
-    expect_generic(false, "expected exception, but none raised", file, line);
   } catch (const std::exception& e) {
     return;
   } catch (...) {
@@ -35,6 +34,8 @@ void expect_raises_fn<std::exception>(const char* file, uint64_t line, std::func
     // std::exception anyway.
     expect_generic(false, "incorrect exception type raised", file, line);
   }
+  // This must be outside the try block (expectation_failed is a std::exception)
+  expect_generic(false, "expected exception, but none raised", file, line);
 };
 
 } // namespace phosg
